@@ -64,17 +64,18 @@ def run(chk):
     so.register_matchers(chk, "C07")
     t0 = time.time()
     chk.prove("Props/C07.v", ["Props/C07.vo", "Gen/SetUses.vo"], [scope_sets.translate])
+    sc.coqchk(chk, "HyV.Props.C07")
     phases = chk.extra.setdefault("phase_seconds", {})
     phases["proof"] = round(time.time() - t0, 1)
     thorough = chk.tier == "thorough"
 
-    # programs: witnesses first, then generated (c07 flavour; some c06 flavour for variety)
+    # programs: witnesses first, then generated (c07 flavour; some c06 flavour for the trace correspondence only)
     labelled = list(WITNESSES)
     g7 = sp.Gen(chk.rng, "c07")
-    for i in range(6000 if thorough else 700):
+    for i in range(20000 if thorough else 700):
         labelled.append(("c07:%d" % i, g7.program()))
     g6 = sp.Gen(chk.rng, "c06")
-    for i in range(1500 if thorough else 100):
+    for i in range(4000 if thorough else 100):
         labelled.append(("c06:%d" % i, g6.program()))
     chk.rule = ("programs = the two Coq refutation witnesses rendered as Hy + seeded random programs nesting defn / let / "
                 "defclass up to depth 4 over the names x y z, with (nonlocal ..)/(global ..) of 1-3 names at function start, "
@@ -83,10 +84,10 @@ def run(chk):
                 "(b) executed, log / exception / module globals compared with the lexical reference interpreter. "
                 "non-trivial = distinct program with a nonlocal/global declaration on which the reference makes a claim")
     t1 = time.time()
-    so.correspondence(chk, labelled, limit=(4000 if thorough else 450))
+    so.correspondence(chk, labelled, limit=(8000 if thorough else 450))
     phases["trace correspondence"] = round(time.time() - t1, 1)
     t2 = time.time()
-    so.oracle(chk, "C07", labelled, need=("nonlocal", "global"))
+    so.oracle(chk, "C07", [x for x in labelled if not x[0].startswith("c06:")], need=("nonlocal", "global"))
     phases["oracle"] = round(time.time() - t2, 1)
 
 
